@@ -166,7 +166,9 @@ def nfaces_defect(spec, res):
 
 
 def replay_info(ctx, spec, res, extra=None):
-    d = {"property": "C21", "kernel_metadata_file": G.kernel_text(spec), "algorithm_file": G.alg_text(spec),
+    group = spec.get("group") or [spec]
+    d = {"property": "C21", "kernel_metadata_file": G.kernel_text(spec), "algorithm_file": G.alg_text_group(group),
+         "other_kernels_of_the_invoke": {x["name"]: G.kernel_text(x) for x in group if x is not spec},
          "distributed_memory": spec.get("dm", False), "coloured": spec.get("colour", False),
          "how_to_replay": "write the two files into one directory (kernel as <name>_mod.f90); "
                           "psyclone.parse.algorithm.parse(alg, api='lfric', kernel_paths=[dir]) + "
@@ -283,7 +285,7 @@ def run(ctx):
     # ---- 3. cases
     X.install_hooks()
     rng = ctx.rng("gen")
-    n = int(os.environ.get("C21_CASES", ctx.pick(90, 1000)))      # C21_CASES: debugging override only
+    n = int(os.environ.get("C21_CASES", ctx.pick(90, 900)))      # C21_CASES: debugging override only
     specs = [T.W_SHAPES, T.W_STENCIL, T.W_STENCIL_REV, W_NFACES] + [w for _, w in DOC_WITNESSES]
     n_fixed = len(specs)
     corpus = HERE / "corpus"
@@ -298,11 +300,30 @@ def run(ctx):
             sp["malformed"] = G.make_invalid(rng, sp)
             sp["mode"] = "malformed"
         specs.append(sp)
-    for k, sp in enumerate(specs):
-        sp["id"] = k
+    items = list(specs)
+    # multi-kernel invokes: 2-3 kernels of ONE invoke share algorithm-layer arguments which their metadata
+    # describe differently (the model is per kernel: independence from the rest of the invoke is tested here)
+    groups = []
+    for f in sorted((HERE / "corpus_groups").glob("*.json")) if (HERE / "corpus_groups").is_dir() else []:
+        groups.append(json.loads(f.read_text()))
+    rngm = ctx.rng("multi")
+    for i in range(int(os.environ.get("C21_GROUPS", ctx.pick(16, 120)))):
+        g = (G.gen_cma_group if i % 3 == 0 else G.gen_shared_group)(rngm, 5000 + i)
+        groups.append({"group": g, "dm": rngm.random() < 0.3, "colour": rngm.random() < 0.3})
+    for g in groups:
+        items.append(g)
+        for j, sp in enumerate(g["group"]):
+            sp["dm"], sp["colour"] = g.get("dm", False), g.get("colour", False)
+            sp["invoke"] = [x["name"] for x in g["group"]]
+            sp["group"] = g["group"]
+            specs.append(sp)
+    for k, it in enumerate(items):
+        it["id"] = k
     workdir = ctx.scratch / "cases"
     workdir.mkdir(parents=True, exist_ok=True)
-    results = run_all(ctx, specs, workdir)
+    results = []
+    for r in run_all(ctx, items, workdir):
+        results += r if isinstance(r, list) else [r]
     ctx.log("ran %d cases through PSy-layer and stub generation in %.0fs" % (len(specs), time.time() - t0))
     # ---- 4. the property on the implementation's results
     violations, coq_cases, coq_idx = [], [], []
@@ -334,6 +355,8 @@ def run(ctx):
             ctx.hist("options", "coloured")
         if sp.get("dm"):
             ctx.hist("options", "distributed-memory")
+        if sp.get("invoke"):
+            ctx.hist("options", "%d kernels in the invoke" % len(sp["invoke"]))
         # (i) call vs stub
         if has_both:
             both.append(k)
@@ -479,7 +502,8 @@ def gfortran_tier(ctx, specs, results, both, variant):
     try:
         tmp, incs = build_infrastructure(ctx)
         rng = ctx.rng("gfortran")
-        cand = [k for k in both if not specs[k].get("mixed")]
+        # (a multi-kernel PSy layer would need the stubs of all its kernels: single-kernel invokes only)
+        cand = [k for k in both if not specs[k].get("mixed") and not specs[k].get("invoke")]
         fixed = [k for k in cand if specs[k]["mode"] == "witness"]
         rest = [k for k in cand if specs[k]["mode"] != "witness"]
         rng.shuffle(rest)
